@@ -5,6 +5,7 @@ import (
 	"fmt"
 	"math/rand"
 	"os"
+	"os/exec"
 	"path/filepath"
 	"runtime"
 	"sort"
@@ -267,6 +268,69 @@ func dropPools() {
 	runtime.GC()
 }
 
+// freshReplay runs a replay file in a fresh process of this test binary - package-level state of the code under
+// test (caches, registries) is then what a process start leaves - and reports the class and event-log hash it got.
+func freshReplay(path string) (class, hash string) {
+	exe, err := os.Executable()
+	if err != nil {
+		return "?", ""
+	}
+	cmd := exec.Command(exe, os.Args[1:]...)
+	cmd.Env = append(os.Environ(), "ZSIM_MODE=replay", "ZSIM_REPLAY="+path, "ZSIM_VERBOSE=")
+	out, _ := cmd.CombinedOutput()
+	for _, ln := range strings.Split(string(out), "\n") {
+		if strings.HasPrefix(ln, "REPLAY-RESULT ") {
+			var ec, eh string
+			fmt.Sscanf(ln, "REPLAY-RESULT class=%q hash=%s expected_class=%q expected_hash=%s", &class, &hash, &ec, &eh)
+			return class, hash
+		}
+	}
+	return "?", ""
+}
+
+func writeReplay(path string, rp Replay) {
+	b, _ := json.MarshalIndent(rp, "", " ")
+	os.WriteFile(path, b, 0o644)
+}
+
+// freshMinimise shrinks tapes with one process per execution (empty tape, then shortest failing prefix, per tape).
+func freshMinimise(path string, rp Replay, budget int) Replay {
+	tmp := path + ".cand"
+	defer os.Remove(tmp)
+	try := func(c Replay) bool {
+		if budget <= 0 {
+			return false
+		}
+		budget--
+		writeReplay(tmp, c)
+		cl, _ := freshReplay(tmp)
+		return cl == rp.Class
+	}
+	get := func(r *Replay, k int) *[]int { return []*[]int{&r.Fault, &r.Sched, &r.Ops}[k] }
+	for k := 0; k < 3; k++ {
+		cur := *get(&rp, k)
+		c := rp
+		*get(&c, k) = nil
+		if try(c) {
+			rp = c
+			continue
+		}
+		lo, hi := 0, len(cur) // shortest prefix known to fail is hi
+		for lo+1 < hi && budget > 0 {
+			mid := (lo + hi) / 2
+			c := rp
+			*get(&c, k) = append([]int(nil), cur[:mid]...)
+			if try(c) {
+				hi = mid
+			} else {
+				lo = mid
+			}
+		}
+		*get(&rp, k) = append([]int(nil), cur[:hi]...)
+	}
+	return rp
+}
+
 func envInt(name string, def int64) int64 {
 	if s := os.Getenv(name); s != "" {
 		if n, err := strconv.ParseInt(s, 10, 64); err == nil {
@@ -309,6 +373,7 @@ func Main(t *testing.T, h Harness) {
 		Rule: h.Rule, Real: h.Real, Stub: h.Stub}
 	hashes := map[uint64]struct{}{}
 	classes := map[string]*Viol{}
+	staleTries := map[string]int{}
 	t0 := time.Now()
 	flush := func(done bool) {
 		res.Done = done
@@ -387,7 +452,7 @@ func Main(t *testing.T, h Harness) {
 		if r.violClass != "" {
 			if v := classes[r.violClass]; v != nil {
 				v.Count++
-			} else if len(classes) < 6 {
+			} else if len(classes) < 6 && staleTries[r.violClass] < 5 {
 				v := &Viol{Seed: s, Class: r.violClass, Msg: r.violMsg, Count: 1}
 				classes[r.violClass] = v
 				best := tapesOf(r)
@@ -407,10 +472,37 @@ func Main(t *testing.T, h Harness) {
 					Hash: strconv.FormatUint(fr.Hash(), 16), OrigLens: orig, Log: fr.log}
 				name := fmt.Sprintf("%s-%s-%d.json", h.Property, sanitize(h.Name+"-"+r.violClass), s)
 				path := filepath.Join(rdir, name)
-				b, _ := json.MarshalIndent(rp, "", " ")
-				os.WriteFile(path, b, 0o644)
+				writeReplay(path, rp)
 				v.Replay = path
 				v.Msg = fr.violMsg
+				if mode != "selftest" && r.violClass != "process-crash" {
+					// must hold from a clean process: package-level state of the code under test that earlier
+					// runs of this worker left behind (a cache, a registry) is not part of the replay file
+					if cl, hs := freshReplay(path); cl != rp.Class || hs != rp.Hash {
+						full := tapesOf(r)
+						rp2 := rp
+						rp2.Ops, rp2.Sched, rp2.Fault, rp2.Log = full[0], full[1], full[2], r.log
+						writeReplay(path, rp2)
+						cl1, hs1 := freshReplay(path)
+						cl2, hs2 := freshReplay(path)
+						if cl1 != rp.Class || cl2 != rp.Class || hs1 != hs2 {
+							// this run only failed because of what earlier runs had left in the process
+							res.Probes["violation_needed_state_of_earlier_runs"]++
+							os.Remove(path)
+							delete(classes, r.violClass)
+							staleTries[r.violClass]++
+						} else {
+							rp2 = freshMinimise(path, rp2, 40)
+							rp2.Hash = ""
+							writeReplay(path, rp2)
+							_, hs := freshReplay(path)
+							rp2.Hash = hs
+							rp2.Log = append([]string{"(minimised with one process per execution: the violation depends on package-level state of the code under test; the log below is that of the unminimised run)"}, r.log...)
+							writeReplay(path, rp2)
+							res.Probes["violation_minimised_in_fresh_processes"]++
+						}
+					}
+				}
 			}
 		}
 		if res.Runs%200 == 0 {
